@@ -116,6 +116,22 @@ def fit_quiet(selector, X, y=None, warm_start=False):
     return [str(x.message) for x in w], exc
 
 
+def sibling_fit(kind, direction, X, y, p, n=2):
+    """An UNRELATED selector of the same class and configuration, cold-fitted on other data of the
+    same shape -- a step the harness inserts between two legs of another instance's warm-start chain
+    (two live selectors of one class are ordinary use; whatever the first one continues from must be
+    its own state). Its result is not judged here; returns the instance so it stays alive."""
+    q = {k: v for k, v in p.items() if k not in ("score_threshold", "score_threshold_type")}
+    N = n_items(X, direction)
+    n0 = len(q["initialize"]) if isinstance(q.get("initialize"), list) else 1
+    q["n_to_select"] = min(N, max(n0, n))
+    Xo = np.ascontiguousarray(np.asarray(X, float)[::-1, ::-1]) * 40.0 + 3.0
+    yo = None if y is None else (np.asarray(y, float)[::-1].copy() * -0.5 + 0.25)
+    b = make(kind, direction, **q)
+    fit_quiet(b, Xo, yo)
+    return b
+
+
 # --------------------------------------------------------------------------------------
 # reference models
 
